@@ -2105,6 +2105,11 @@ func op_mvn(cpu *CPU) {
 	dst := cpu.nRead(cpu.RK, cpu.StepInfo.Addr)
 	src := cpu.nRead(cpu.RK, cpu.StepInfo.Addr+1)
 
+	// the count is the full 16-bit C; with M=1 the live accumulator is RAh:RAl
+	if cpu.M == 1 {
+		cpu.RA = uint16(cpu.RAh)<<8 | uint16(cpu.RAl)
+	}
+
 	cpu.RDBR = dst
 	if cpu.X == 1 {
 		cpu.nWrite(dst, uint16(cpu.RYl), cpu.nRead(src, uint16(cpu.RXl)))
@@ -2128,6 +2133,11 @@ func op_mvn(cpu *CPU) {
 func op_mvp(cpu *CPU) {
 	dst := cpu.nRead(cpu.RK, cpu.StepInfo.Addr)
 	src := cpu.nRead(cpu.RK, cpu.StepInfo.Addr+1)
+
+	// the count is the full 16-bit C; with M=1 the live accumulator is RAh:RAl
+	if cpu.M == 1 {
+		cpu.RA = uint16(cpu.RAh)<<8 | uint16(cpu.RAl)
+	}
 
 	cpu.RDBR = dst
 	if cpu.X == 1 {
